@@ -1,5 +1,10 @@
 """C15 — pattern scanners (utils.iter_find_needle, artifact.iter_artifactkit_payloads):
-generators, adapters to the real library, independent oracle."""
+generators, adapters to the real library, independent oracle.
+
+Streams `g-*` / `pyu`: the two functions are also TRANSLATED from their source on every run (plug-in gen/py_scan.py →
+Gen/PyScan.lean, untyped translator) and proved equal to the hand-written model (Props/C15Gen.lean); every needle / art case is
+also executed through the translated definition (`g-<stream>`), `g-arg` runs it on arguments of any kind, `pyu` runs the
+operations of Model/PyU_T15.lean (file objects, `find`) against CPython."""
 from __future__ import annotations
 
 import io
@@ -11,9 +16,12 @@ import tempfile
 from dissect.cobaltstrike import artifact, utils
 
 from . import common as C
+from . import pyuval, pyuval_t15
 
 ID = "C15"
 DRIVER = "drv_c15"
+GEN = ["py_utils", "py_scan"]
+EXTRA_PROP_FILES = ["Props/C15Gen.lean"]
 STREAMS = {
     "needle-b": {"relevant": True, "desc": "list(iter_find_needle(BytesIO, needle, start, 0)) + tell(), io.DEFAULT_BUFFER_SIZE patched to B; "
                  "no limit: the property fixes the answer completely, any difference from the model contradicts it"},
@@ -27,12 +35,28 @@ STREAMS = {
     "art-f": {"relevant": True, "desc": "same on a real file opened 'rb'"},
     "find": {"relevant": False, "desc": "CPython bytes.find(needle, start) vs the Lean model bytesFind (trusted-base exercise)"},
     "occ": {"relevant": False, "desc": "Lean specification `occ` vs the naive Python occurrence search used by the oracle"},
+    "g-needle-b": {"relevant": False, "desc": "iter_find_needle TRANSLATED from its source (Gen/PyScan.lean) vs the function, on every case of needle-b"},
+    "g-needle-f": {"relevant": False, "desc": "translated iter_find_needle vs the function on every case of needle-f"},
+    "g-needlelim-b": {"relevant": False, "desc": "translated iter_find_needle vs the function on every case of needlelim-b"},
+    "g-needlelim-f": {"relevant": False, "desc": "translated iter_find_needle vs the function on every case of needlelim-f"},
+    "g-needle-edge": {"relevant": False, "desc": "translated iter_find_needle vs the function on every case of needle-edge"},
+    "g-art-b": {"relevant": False, "desc": "iter_artifactkit_payloads TRANSLATED from its source vs the function, on every case of art-b"},
+    "g-art-f": {"relevant": False, "desc": "translated iter_artifactkit_payloads vs the function on every case of art-f"},
+    "g-arg": {"relevant": False, "desc": "the translated definitions vs the functions on arguments of ANY kind (None / str / bytes / list where an int, "
+              "a file or bytes is expected; io.DEFAULT_BUFFER_SIZE of any kind): cases only the translation can express"},
+    "pyu": {"relevant": False, "desc": "the operations of Model/PyU_T15.lean (file objects: read / seek / tell on BytesIO and a real file; bytes.find / "
+            "str.find) vs CPython on operands of all kinds"},
 }
+G_STREAMS = ("needle-b", "needle-f", "needlelim-b", "needlelim-f", "needle-edge", "art-b", "art-f")
 TRUSTED = [
     "tools/harness/c15.py generators, adapters and naive oracle; line protocol parsing in lean/CsVerif/Driver/C15.lean",
     "CPython bytes.find, bytes slicing, BytesIO / buffered file read/seek/tell are modelled (Model/C15.lean bytesFind?, Model/PyFile.lean), "
     "not verified; each is exercised by this correspondence (stream 'find', BytesIO and real-file streams)",
     "utils.u32 / utils.xor are the C20 models (C20.unpack, C20.xor), tied to the code by C20's correspondence",
+    "tools/py2leanu.py and lean/CsVerif/Model/PyU.lean + PyU_T15.lean (the untyped translator and its run-time library: file objects, find, "
+    "generators as the list of their yields): trusted; Props/C15Gen.lean proves the definitions translated from the source of both functions equal "
+    "to the hand-written model; the g-* streams run the translated definitions against the real functions on every needle / art case and on "
+    "arguments of any kind, the pyu stream runs the PyU_T15 operations against CPython",
 ]
 ASSUMPTIONS = [
     "io.DEFAULT_BUFFER_SIZE is a positive int (model parameter B >= 1; B = 0 is exercised as correspondence only)",
@@ -131,7 +155,36 @@ def fmt_hits(hits, tell):
     return "ok " + " ".join(parts)
 
 
+def _garg(line):
+    """`gargn` / `garga`: the real generator on arguments of any kind; io.DEFAULT_BUFFER_SIZE patched to the first operand"""
+    w = line.split()
+    args = [pyuval_t15.parse(t) for t in w[1:]]
+    saved = io.DEFAULT_BUFFER_SIZE
+    try:
+        if w[0] == "gargn":
+            with pyuval_t15.Opened(args[1:]) as a:
+                io.DEFAULT_BUFFER_SIZE = args[0]
+                assert utils.io is io
+                try:
+                    out = list(utils.iter_find_needle(*a))
+                finally:
+                    io.DEFAULT_BUFFER_SIZE = saved
+                return "ok " + pyuval.pshow(out) + " " + str(a[0].tell())
+        with pyuval_t15.Opened(args) as a:
+            hits = list(artifact.iter_artifactkit_payloads(*a))
+            shown = "L[" + ";".join("I0[" + ";".join(pyuval.pshow(x) for x in h) + "]" for h in hits) + "]"
+            return "ok " + shown + " " + str(a[0].tell())
+    finally:
+        io.DEFAULT_BUFFER_SIZE = saved
+
+
 def impl(stream, line):
+    if stream == "g-arg":
+        return _garg(line)
+    if stream == "pyu":
+        return pyuval_t15.run(line)
+    if stream.startswith("g-"):
+        return impl(stream[2:], line[1:])        # the same real function
     w = line.split()
     if stream == "find":
         return str(C.unhx(w[1]).find(C.unhx(w[2]), int(w[3])))
@@ -164,6 +217,8 @@ def impl(stream, line):
 
 def oracle(stream, line, out):
     """The property stated directly on the implementation's output (naive search, no library calls)."""
+    if stream.startswith("g-") or stream == "pyu":
+        return None
     w = line.split()
     if stream.startswith("needle"):
         B, hay, needle, start, maxoff, initpos = int(w[2]), C.unhx(w[3]), C.unhx(w[4]), opt(w[5]), int(w[6]), int(w[7])
@@ -203,6 +258,10 @@ def oracle(stream, line, out):
 
 
 def nontrivial(stream, line, out):
+    if stream in ("pyu", "g-arg"):
+        return not out.startswith("exc ")
+    if stream.startswith("g-"):
+        return nontrivial(stream[2:], line[1:], out)
     if out.startswith("exc "):
         return False
     w = line.split()
@@ -218,6 +277,12 @@ def nontrivial(stream, line, out):
 
 
 def shrink(stream, line):
+    if stream in ("pyu", "g-arg"):
+        return
+    if stream.startswith("g-"):
+        for cand in shrink(stream[2:], line[1:]):
+            yield "g" + cand
+        return
     yield from C.shrink_tokens(line)
 
 
@@ -284,7 +349,39 @@ def gen_art_file(rng):
     return hay, positions
 
 
+def garg_case(rng):
+    """arguments of any kind for the translated definitions"""
+    f = pyuval_t15.rfile(rng) if rng.random() < 0.9 else rng.choice([None, 5, b"ab", [1]])
+    if rng.random() < 0.6:
+        bufsize = rng.choice([1, 2, 3, 4, 5, 8192, 0, True, None, -1, -2, "4", b"", [4]])
+        needle = rng.choice([b"\x01", b"\x00\x01", b"\x01\x01", b"", b"\xff", None, 1, True, "a", "", [1], (1, 2), {}])
+        start = rng.choice([None, None, 0, 1, 2, 5, -1, True, False, "1", b"", [0]])
+        maxoff = rng.choice([0, 0, 1, 2, 3, 7, -1, -4, None, True, False, b"", b"x", "a", [], [1]])
+        return "gargn " + " ".join(pyuval_t15.show(x) for x in (bufsize, f, needle, start, maxoff))
+    if isinstance(f, pyuval_t15.FileSpec) and rng.random() < 0.6:
+        pos = rng.choice([0, 1, 2])
+        body = art_header(pos, rng.choice([0, 1, 3, 5]), C.rbytes(rng, 4), C.rbytes(rng, 8)) + C.rbytes(rng, rng.choice([0, 2, 5]))
+        f = pyuval_t15.FileSpec(bytes(pos) + body[:rng.choice([len(body), len(body), 7, 11, 19])], rng.choice([0, 0, 1, 30]), f.kind)
+    start = rng.choice([0, 0, None, 1, 2, -1, True, "0", b"", [0]])
+    maxrange = rng.choice([None, None, 0, 1, 2, 30, -1, True, False, "a", b"", [1]])
+    return "garga " + " ".join(pyuval_t15.show(x) for x in (f, start, maxrange))
+
+
 def gen(tier, rng, shard, nshards):
+    """every case that calls one of the two functions is also run through the definition translated from its source"""
+    for stream, line in gen0(tier, rng, shard, nshards):
+        yield stream, line
+        if stream in G_STREAMS:
+            yield "g-" + stream, "g" + line
+    for _ in range((60000 if tier == "thorough" else 6000) // nshards):
+        yield "g-arg", garg_case(rng)
+    for _ in range((100000 if tier == "thorough" else 10000) // nshards):
+        line = pyuval_t15.case(rng)
+        if line is not None:
+            yield "pyu", line
+
+
+def gen0(tier, rng, shard, nshards):
     thorough = tier == "thorough"
     k = 0
 
